@@ -92,6 +92,10 @@ func (f *fprinter) attr(a Attr, level int) {
 		f.indent(level, "style={ env.T", num(a.E), "() }")
 	case "classkv":
 		f.indent(level, "class={ env.K(1), templ.KV(env.K(2), env.C(", num(a.C), ")) }")
+	case "classmix":
+		f.indent(level, "class={ \"card\", boxed(), \"wide\" }")
+	case "scriptcall2":
+		f.indent(level, a.N, "={ span2(1, 2) }")
 	case "cssclassx":
 		f.indent(level, "class={ tinted(\"green\") }")
 	case "cssclass":
